@@ -65,6 +65,15 @@ def run(rep):
     rep.floor('functions constructing NonConsecutiveBindGroups', len(Gn), 1)
     rep.analysed = {'group_data_functions': G, 'non_consecutive_sites_in': Gn, 'bodies': len(mir.bodies)}
     n_push = 0
+    # field roles of the collected-binding record (which field holds the @binding index / the address space) by provenance, not by name
+    from roles import mir_binding_roles
+    ROLES, REC = mir_binding_roles(mir)
+    if ROLES is None:
+        rep.bad('C11.anchor', 'binding-record', '', 'cannot find the record that is built from a variable\'s `.binding` and `.space` (the collected binding)', undecided=True)
+        return
+    IDX_F, SPACE_F = ROLES['index'], ROLES['space']
+    _REC[0], _REC[1] = REC, IDX_F
+    REC_SHORT = REC.split('::')[-1].split('<')[0]
     # all pushes of GroupBinding-like elements anywhere in the crate must be guarded (a second, unchecked collector
     # would bypass the contract)
     elem_tys = set()
@@ -117,7 +126,7 @@ def run(rep):
                         rv = st['rv']
                         if rv['rk'] == 'binop' and rv['op'] == 'Eq':
                             rs = [canon(CB, op_place(o)) for o in rv['ops'] if op_place(o)]
-                            elem_side = any(r[0] == 2 and 'binding_index' in r[1] for r in rs)
+                            elem_side = any(r[0] == 2 and r[1].replace('&', '').replace('*', '').endswith('.' + IDX_F) for r in rs)
                             cap = [r for r in rs if r[0] == 1]
                             # the captured value is the binding index of the variable being added: either `<captured ResourceBinding>.binding`, or a
                             # captured integer that the creator took from `.binding`
@@ -169,17 +178,17 @@ def run(rep):
             # element fields from the same variable
             el = op_local(t['args'][1])
             sl2, calls2, stmts2 = B.backward_slice([el], through_calls=False)
-            aggs = [st for _, st in stmts2 if st['rv']['rk'] == 'aggregate' and 'GroupBinding' in st['rv']['agg']]
+            aggs = [st for _, st in stmts2 if st['rv']['rk'] == 'aggregate' and st['rv']['agg'] == REC]
             if aggs:
                 a = aggs[0]['rv']
                 fields = dict(zip(a['fields'], a['ops']))
-                want = {'binding_index': '.binding', 'address_space': '.space'}
+                want = {IDX_F: '.binding', SPACE_F: '.space'}
                 for f, suffix in want.items():
                     r = canon(B, op_place(fields[f])) if f in fields and op_place(fields[f]) else None
-                    rep.check(r is not None and r[1].endswith(suffix), 'C11.R2.element-fields', f'{key}:{f}', B.where(bb),
+                    rep.check(r is not None and r[1].endswith(suffix), 'C11.R2.element-fields', f'{key}:{"binding_index" if f == IDX_F else "address_space"}', B.where(bb),
                               f'field {f} of the collected binding comes from {r}, expected the variable\'s `{suffix}`', ok_detail=f'{f} <- {r}')
-                if kr and 'binding_index' in fields and op_place(fields['binding_index']):
-                    r = canon(B, op_place(fields['binding_index']))
+                if kr and IDX_F in fields and op_place(fields[IDX_F]):
+                    r = canon(B, op_place(fields[IDX_F]))
                     rep.check(r[0] == kr[0] and r[1].rsplit('.', 1)[0] == kr[1].rsplit('.', 1)[0], 'C11.R2.element-fields', f'{key}:same-resource-binding', B.where(bb),
                               f'group key ({kr}) and binding index ({r}) do not come from the same ResourceBinding', ok_detail='group and index from the same ResourceBinding')
     rep.floor('pushes onto group binding lists', n_push, 1)
@@ -335,15 +344,18 @@ def recv_chain(B, local, stop_root):
     return calls, roots
 
 
+_REC = [None, None]     # (aggregate name, index field) of the collected-binding record, set by run()
+
+
 def pushed_binding_root(B, push_t):
     el = op_local(push_t['args'][1])
     sl, calls, stmts = B.backward_slice([el], through_calls=False)
     for _, st in stmts:
         rv = st['rv']
-        if rv['rk'] == 'aggregate' and 'GroupBinding' in rv['agg']:
+        if rv['rk'] == 'aggregate' and rv['agg'] == _REC[0]:
             fields = dict(zip(rv['fields'], rv['ops']))
-            if 'binding_index' in fields and op_place(fields['binding_index']):
-                return canon(B, op_place(fields['binding_index']))
+            if _REC[1] in fields and op_place(fields[_REC[1]]):
+                return canon(B, op_place(fields[_REC[1]]))
     return None
 
 
